@@ -177,7 +177,7 @@ def run_property(pid, harnesses, tier, seed, level='model_checking', assumptions
                 else:
                     fn = os.path.join(OUT, pid, 'violation-%s-%s.json' % (h.name, hashlib.sha1(json.dumps(case, sort_keys=True).encode()).hexdigest()[:10]))
                     json.dump(rec, open(fn, 'w'), indent=1)
-                    violations.append((fn, rec))
+                    if fn not in [v[0] for v in violations]: violations.append((fn, rec))
         log('%s: %d paths %s, %d obligations %s, %.1fs' % (h.name, len(rs), oc, nobl, stat, time.time() - th))
     cov['functions_encoded'] = fn_hashes(it, {c for c in called_all if not c.startswith('<')})
     cov['n_functions_encoded'] = len(cov['functions_encoded'])
